@@ -474,15 +474,14 @@ def claim_escapes(cx, res, kf):
         esc, byte = e.sym_int("u8", "escape"), e.sym_int("u8", "byte")
         return [esc, byte], [], {"escape": esc.e, "byte": byte.e}
     eng, fn, info, terms = explore_print(cx, res, "CharEscape::from_escape_table", mk2)
-    tbl = z3.K(z3.BitVecSort(8), bv(0))
-    for i, v in enumerate(raw):
-        tbl = z3.Store(tbl, bv(i), bv(v))
     byte = info["byte"]
-    link = info["escape"] == z3.Select(tbl, byte)      # how format_escaped_str_contents calls it
+    # the compiled table as a run-length If-chain over the byte (a 256-store array makes some of these queries time out)
+    tbl_at_byte = S.table_u8_select(eng, "ESCAPE", z3.ZeroExt(56, byte))
+    link = info["escape"] == tbl_at_byte      # how format_escaped_str_contents calls it
     for t in terms:
         pc = list(t.state.pc)
         if t.kind == "PANIC":
-            res.must_be_unsat(pc + [link, z3.Select(tbl, byte) != bv(0)], "from_escape_table: unreachable!() reachable for a table entry", print_replay(res))
+            res.must_be_unsat(pc + [link, tbl_at_byte != bv(0)], "from_escape_table: unreachable!() reachable for a table entry", print_replay(res))
             continue
         if t.kind == "RETURN" and isinstance(t.value, EnumV):
             d = K.concrete(t.value.discr)
@@ -958,7 +957,7 @@ def claim_string_fragments(cx, res, kf):
     State at the loop header: `start`, position k of the byte iterator.  Invariant: start <= k <= len and no byte in
     [start, k) is in the escape set (those bytes are pending, not yet written)."""
     from . import confirm as CF
-    onm = CF.confirm(("print",), res)
+    onm = CF.confirm(("print", "printcheck"), res)
     fn = cx.fns.get("format_escaped_str_contents") or cx.fns.get("print::format_escaped_str_contents")
     if fn is None:
         res.error = "format_escaped_str_contents not found"
@@ -1137,7 +1136,7 @@ def claim_elisp_bytes(cx, res, kf):
     """CustomizedFormatter::write_bytes, Emacs syntax: `"`, then for every octet a backslash and exactly three octal digits
     (value = the octet), then `"`.  Outer loop cut (any length), the 3-digit loop executed."""
     from . import confirm as CF
-    onm = CF.confirm(("print",), res)
+    onm = CF.confirm(("print", "printcheck"), res)
     fn = None
     for name, f in cx.fns.items():
         if name.endswith("::write_bytes") and "{closure" not in name and "CustomizedFormatter" in f.local_ty.get(f.args[0], ""):
@@ -1292,7 +1291,7 @@ def claim_vector_structure(cx, res, kf):
     """Printer::write_vector and write_scheme_vector (generic vectors and R6RS / R7RS byte vectors): begin_vector(kind) first,
     then per element: separator iff not the first, the element, end_seq_element; end_vector last; errors end the output."""
     from . import confirm as CF
-    onm = CF.confirm(("print",), res)
+    onm = CF.confirm(("print", "printcheck"), res)
     total = {"step": 0, "end": 0}
     for fname in ("write_scheme_vector", "Printer::<W, F>::write_vector"):
         fn = cx.fns.get(fname) or C.resolve_callee(cx, fname)
@@ -1418,7 +1417,7 @@ def claim_number_text(cx, res, kf):
     method writes exactly itoa(n) resp. ryu(n) of THAT value (one emission); byte-vector elements are written as itoa(octet).
     (itoa / ryu themselves are trusted libraries.)"""
     from . import confirm as CF
-    onm = CF.confirm(("print",), res)
+    onm = CF.confirm(("print", "printcheck"), res)
     NN = cx.enums["N"]
     n_done = 0
     # ---- Number::visit dispatch
@@ -1546,7 +1545,7 @@ def claim_name_text(cx, res, kf):
     marker of the keyword syntax: `#:name` for the trait default, `#:name` / `:name` / `name:` for the customised formatter
     according to its keyword_syntax option and nothing else."""
     from . import confirm as CF
-    onm = CF.confirm(("print",), res)
+    onm = CF.confirm(("print", "printcheck"), res)
     KS = cx.enums["KeywordSyntax"]
     n_ok = 0
 
